@@ -314,6 +314,16 @@ func (db *DB) exist(o Object) (ok bool, err error) {
 
 func (db *DB) writeObject(o Object) (err error) {
 	var data []byte
+
+	if data, err = json.Marshal(o); err != nil {
+		return
+	}
+
+	return db.writeObjectData(o, data)
+}
+
+// writeObjectData writes an already serialized Object
+func (db *DB) writeObjectData(o Object, data []byte) (err error) {
 	var s *Schema
 
 	if s, err = db.schema(o); err != nil {
@@ -322,10 +332,6 @@ func (db *DB) writeObject(o Object) (err error) {
 
 	path := db.oPath(s, o)
 	if err = os.MkdirAll(filepath.Dir(path), DefaultPermissions); err != nil {
-		return
-	}
-
-	if data, err = json.Marshal(o); err != nil {
 		return
 	}
 
@@ -385,9 +391,16 @@ func (db *DB) initialize(o Object) (err error) {
 }
 
 func (db *DB) insertOrUpdate(s *Schema, o Object, commit bool) (err error) {
+	var data []byte
 
 	// initialize object first
 	if err = db.initialize(o); err != nil {
+		return
+	}
+
+	// an object which cannot be serialized (NaN, Inf, unsupported type)
+	// must be refused before it gets indexed, cached or queued
+	if data, err = json.Marshal(o); err != nil {
 		return
 	}
 
@@ -406,7 +419,7 @@ func (db *DB) insertOrUpdate(s *Schema, o Object, commit bool) (err error) {
 		db.asyncw.put(o)
 	} else {
 		// writing the object to disk
-		if err = db.writeObject(o); err != nil {
+		if err = db.writeObjectData(o, data); err != nil {
 			return
 		}
 
